@@ -37,7 +37,7 @@ def _lenclass(n):
                          ("257-65535", 257, 65535), ("65536", 65536, 65536)):
         if lo <= n <= hi:
             return name
-    return ">65536"
+    return ">65536" if n < 0x7fffffff else ">=2^31-1"
 
 
 def _byteclass(x):
@@ -164,33 +164,71 @@ def _replay_push(recs):
                                   len(d), d[:4].hex(), (got.get("out") or b"")[:8].hex() if "out" in got else got, want[:8].hex()),
                               {"rec": _trim(r), "got": repr(got)[:200]}))
         elif r["k"] == "parse":
-            script = drv.expand(r["script"])
-            items = r["items"]
-            detail = {"rec": _trim(r)}
-            if items:
-                classes.add(("parse", r["cls"], items[0]["op"], items[0]["ok"], items[0]["minok"], items[0]["why"], len(items),
-                             _lenclass(len(drv.expand(items[0]["val"])))))
-            n += _check_items(script, items, fails, detail)
-            # the VM as consumer of the decoder
-            d = drv.expand(r["d"])
-            if r["cls"] == "enc" and len(d) <= 520:
-                for md in (False, True):
-                    got = drv.vm_run(script, md)
-                    n += 1
-                    if got.get("stack") != [d]:
-                        fails.append(("C12|vm|push|op=%02x|size=%s|minimaldata=%s|got=%s" % (items[0]["op"], _lenclass(len(d)), md, got.get("exc", "other-stack")),
-                                      "VM(flags=%s) on the minimal push of %d bytes (%s..): %s" % ("MINIMALDATA" if md else "0", len(d), script[:6].hex(), _shortvm(got)), detail))
-            if not r["wf"]:
-                bad = items[-1]
-                why = "length-field" if "length" in bad["why"] else "data"
-                for md in (False, True):
-                    got = drv.vm_run(script, md)
-                    n += 1
-                    if "stack" in got:
-                        fails.append(("C12|vm|truncated-%s|op=%02x|minimaldata=%s|expected=fail|got=ok" % (why, bad["op"], md),
-                                      "VM(flags=%s) evaluates script %s without error although its push at %d is cut short" % (
-                                          "MINIMALDATA" if md else "0", script[:40].hex(), bad["at"]), detail))
+            try:
+                with drv.time_limit(_TIME_LIMIT):
+                    n += _parse_record(r, fails, classes)
+            except drv.Hang:
+                script = drv.expand(r["script"])
+                fails.append(("C12|parse|cls=%s|op=%02x|hang" % (r["cls"], script[r["items"][-1]["at"]] if r["items"] else 0),
+                              "pycoin did not return within %ds on script %s (get_opcode / get_opcodes / disassemble / VM): the cursor does not advance" % (
+                                  _TIME_LIMIT, script[:40].hex()), {"rec": _trim(r)}))
     return n, fails, classes, collections.Counter()
+
+
+_TIME_LIMIT = 10     # seconds per record / per recorded call group; a healthy call takes milliseconds
+
+
+def _parse_record(r, fails, classes):
+    """one {k:"parse"} record: get_opcode along the script, get_opcodes, disassemble, the VM"""
+    n = 0
+    script = drv.expand(r["script"])
+    items = r["items"]
+    detail = {"rec": _trim(r)}
+    huge = r["cls"] == "huge"
+    tag = "|len>=2^31-1" if huge else ""
+    if items:
+        classes.add(("parse", r["cls"], items[0]["op"], items[0]["ok"], items[0]["minok"], items[0]["why"], len(items),
+                     _lenclass(len(drv.expand(items[0]["val"]))), script[1:5].hex() if huge else ""))
+    n += _check_items(script, items, fails, detail, tag)
+    # ScriptTools.get_opcodes: terminates, the cursor only moves forward, and it yields the spec's instructions
+    # up to the first malformed one
+    w = drv.walk(script)
+    n += 1
+    good = [[it["at"], it["pc"]] for it in items if it["ok"]]
+    if "exc" in w:
+        fails.append(("C12|get_opcodes%s|op=%02x|wf=%s|got=exc:%s" % (tag, script[items[-1]["at"]] if items else 0, r["wf"], w["exc"]),
+                      "get_opcodes(%s) raised %s after %d steps" % (script[:40].hex(), w["exc"], len(w["steps"])), detail))
+    elif any(b <= a for a, b in w["steps"]):
+        a, b = [x for x in w["steps"] if x[1] <= x[0]][0]
+        fails.append(("C12|get_opcodes%s|op=%02x|cursor-not-advancing" % (tag, script[a]),
+                      "get_opcodes(%s): the cursor goes from %d to %d" % (script[:40].hex(), a, b), detail))
+    elif w["steps"][:len(good)] != good or (r["wf"] and len(w["steps"]) != len(good)):
+        fails.append(("C12|get_opcodes%s|wf=%s|other-instructions" % (tag, r["wf"]),
+                      "get_opcodes(%s) walks %s, the spec's instructions are %s" % (script[:40].hex(), w["steps"][:6], good[:6]), detail))
+    # the VM as consumer of the decoder
+    d = drv.expand(r["d"])
+    if r["cls"] == "enc" and len(d) <= 520:
+        for md in (False, True):
+            got = drv.vm_run(script, md)
+            n += 1
+            if got.get("stack") != [d]:
+                fails.append(("C12|vm|push|op=%02x|size=%s|minimaldata=%s|got=%s" % (items[0]["op"], _lenclass(len(d)), md, got.get("exc", "other-stack")),
+                              "VM(flags=%s) on the minimal push of %d bytes (%s..): %s" % ("MINIMALDATA" if md else "0", len(d), script[:6].hex(), _shortvm(got)), detail))
+    if not r["wf"]:
+        bad = items[-1]
+        why = "length-field" if "length" in bad["why"] else "data"
+        for md in (False, True):
+            got = drv.vm_run(script, md)
+            n += 1
+            if "stack" in got:
+                fails.append(("C12|vm%s|truncated-%s|op=%02x|minimaldata=%s|expected=fail|got=ok" % (tag, why, bad["op"], md),
+                              "VM(flags=%s) evaluates script %s without error although its push at %d is cut short" % (
+                                  "MINIMALDATA" if md else "0", script[:40].hex(), bad["at"]), detail))
+    if huge:
+        # the disassembler must come back (no demand on the text of a malformed script)
+        drv.asm_roundtrip(script)
+        n += 1
+    return n
 
 
 def _shortvm(got):
@@ -205,12 +243,20 @@ def _trim(r):
     return r if len(s) < 4000 else {"trimmed": s[:4000]}
 
 
+def _rt(script):
+    try:
+        with drv.time_limit(_TIME_LIMIT):
+            return drv.asm_roundtrip(script)
+    except drv.Hang:
+        return {"exc": "hang", "stage": "disassemble/compile"}
+
+
 def _replay_asm(recs):
     fails, classes, n = [], set(), 0
     stats = collections.Counter()
     for r in recs:
         script = drv.expand(r["script"])
-        rt = drv.asm_roundtrip(script)
+        rt = _rt(script)
         n += 1
         spec_text = r["text"] or drv.render(r["toks"])
         if r["text"] and r["text"] != drv.render(r["toks"]):
@@ -221,7 +267,7 @@ def _replay_asm(recs):
                 culprit = "context|items=%d" % len(r["instr"])
                 for op, at, pc in r["instr"]:
                     sub = script[at:pc]
-                    if drv.asm_roundtrip(sub).get("re") != sub:
+                    if _rt(sub).get("re") != sub:
                         culprit = "item=%02x%s" % (op, "|size=" + _lenclass(pc - at) if 1 <= op <= 78 else "")
                         break
                 fails.append(("C12|roundtrip|%s|got=%s" % (culprit, "exc:%s:%s" % (rt["stage"], rt["exc"]) if "exc" in rt else "other-bytes"),
@@ -374,7 +420,7 @@ def _walk(rnd, script, ev):
     pc = 0
     ev.append({"a": "seek"})
     steps = 0
-    while pc < len(script) and steps < 12:
+    while 0 <= pc < len(script) and steps < 12:
         steps += 1
         vmin = rnd.random() < 0.6
         g = drv.get_opcode(script, pc, vmin)
@@ -389,13 +435,30 @@ def _walk(rnd, script, ev):
             ev.append({"a": "getop", "vmin": False, "res": g["res"], "op": g.get("op", -1), "pc": g.get("pc", -1),
                        "nodata": g.get("data") is None, "data": drv.rle(g["data"]) if g.get("data") is not None else [],
                        "_key": "op=%s|vmin=False|hdr_short=%s|size=%s|got=%s" % (opx, short, sizecls, g["res"])})
-        if g["res"] != "ok":
+        if g["res"] != "ok" or g["pc"] <= pc:      # (a cursor that does not advance is in the log; TLC rejects it)
             break
         pc = g["pc"]
 
 
+_HUGE = (0x7fffffff, 0x80000000, 0x80000001, 0xffffff00, 0xfffffffb, 0xfffffffe, 0xffffffff)
+
+
+def _walk_event(script):
+    """ScriptTools.get_opcodes over the whole script"""
+    try:
+        with drv.time_limit(_TIME_LIMIT):
+            w = drv.walk(script)
+    except drv.Hang:
+        return {"a": "walk", "hang": True, "steps": [], "_key": "hang"}
+    if "exc" in w:
+        return {"a": "walk", "hang": True, "steps": w["steps"][:50], "_key": "exc:" + w["exc"]}
+    back = [x for x in w["steps"] if x[1] <= x[0]]
+    return {"a": "walk", "hang": False, "steps": w["steps"][:400],
+            "_key": "cursor-not-advancing|op=%02x" % script[back[0][0]] if back else "other-instructions"}
+
+
 def _asm_event(script):
-    rt = drv.asm_roundtrip(script)
+    rt = _rt(script)
     if "re" not in rt:
         return {"a": "asm", "toks": [], "parsed": False, "re": [{"n": 1, "b": 256}], "_key": "exc:%s:%s" % (rt["stage"], rt["exc"])}
     toks, parsed = drv.tokenize(rt["text"])
@@ -448,6 +511,12 @@ def record_traces(seed, count):
                     script += piece
                     srl = drv.rle_cat(srl, drv.rle(piece))
                     ev.append({"a": "raw", "bytes": drv.rle(piece), "script": srl})
+                elif x < 0.89:     # OP_PUSHDATA4 announcing 2^31 - 1 bytes or more
+                    piece = b"\x4e" + rnd.choice(_HUGE).to_bytes(4, "little") + bytes(
+                        rnd.choice((0, 0x61, rnd.randrange(256))) for _ in range(rnd.choice((0, 1, 3, 10, 300))))
+                    script += piece
+                    srl = drv.rle_cat(srl, drv.rle(piece))
+                    ev.append({"a": "raw", "bytes": drv.rle(piece), "script": srl})
                 else:       # a non-minimal or arbitrary push header written by the recorder
                     n = rnd.choice((0, 1, 1, 2, 20, 75, 76, 255, 256))
                     op = rnd.choice((0x4c, 0x4d, 0x4e) if n < 256 else (0x4d, 0x4e))
@@ -457,6 +526,7 @@ def record_traces(seed, count):
                     srl = drv.rle_cat(srl, drv.rle(piece))
                     ev.append({"a": "raw", "bytes": drv.rle(piece), "script": srl})
             _walk(rnd, script, ev)
+            ev.append(_walk_event(script))
             if len(script) < 3000:
                 ev.append(_asm_event(script))
             if kind == 2 and len(script) > 1:
@@ -466,6 +536,7 @@ def record_traces(seed, count):
                 srl = drv.rle(script) if len(script) < 3000 else drv.rle_cat([], _rtake(srl, k))
                 ev.append({"a": "cut", "k": k, "script": srl})
                 _walk(rnd, script, ev)
+                ev.append(_walk_event(script))
         traces.append({"ev": ev})
     return traces
 
@@ -504,7 +575,7 @@ def validate(ctx, traces, count=False):
 
 
 _TRACE_CALL = {"enc": "int_to_script_bytes", "dec": "int_from_script_bytes", "push": "compile_push_data",
-               "getop": "get_opcode", "asm": "roundtrip"}
+               "getop": "get_opcode", "walk": "get_opcodes", "asm": "roundtrip"}
 
 
 # ------------------------------------------------------------------ the check
@@ -550,7 +621,7 @@ def run(ctx):
                           ("Bytes", "Blocks", "Ints", "Pows"))
     if want("push"):
         _model_and_replay(ctx, "MC_ScriptPush", "MC_ScriptPush_q" if q else "MC_ScriptPush_t", _replay_push, 100000,
-                          ("Choose", "Cut", "Alt", "Raw", "Begin", "DecStep", "NextInstr"))
+                          ("Choose", "Cut", "Alt", "Raw", "Big", "Begin", "DecStep", "NextInstr"))
     if want("asm"):
         s = _model_and_replay(ctx, "MC_Disasm", "MC_Disasm_q" if q else "MC_Disasm_t", _replay_asm, 10000,
                               ("Ops", "Pushes", "Alts"))
